@@ -84,6 +84,8 @@ func vrtBytes(name string, max int) []byte {
 
 func vrtBytesL(name string, max int) []byte { return vrtBytes(name, max) }
 
+func vrtArrayBytes(n int) []byte { return make([]byte, n) }
+
 func vrtBytesN(name string, n int) []byte {
 	b := make([]byte, n)
 	for i := range b {
